@@ -832,4 +832,123 @@ theorem read_format_radW_sorted (natoms : Str → Nat) (R A P : List WMol)
   · intro m hm; exact hsp m (sub m hm)
   · intro m hm; exact hn m (sub m hm)
 
+/-! ## `ignore=False`: the strict reader accepts everything the writer writes -/
+
+theorem sig_nospace (R A P : List (List Str))
+    (hsp : ∀ m ∈ R ++ A ++ P, ∀ f ∈ m, ∀ c ∈ f, isSpace c = false) :
+    (∀ c ∈ join chGt ([R.map (join chDot), A.map (join chDot), P.map (join chDot)].map (join chDot)), isSpace c = false) ∧
+    join chGt ([R.map (join chDot), A.map (join chDot), P.map (join chDot)].map (join chDot)) ≠ [] := by
+  have roleChars : ∀ X : List (List Str), (∀ m ∈ X, m ∈ R ++ A ++ P) →
+      ∀ c ∈ join chDot (X.map (join chDot)), isSpace c = false := by
+    intro X hX c hc'
+    rcases mem_join chDot _ c hc' with h | ⟨p, hp, hcp⟩
+    · subst h; decide
+    · obtain ⟨m, hm, e⟩ := List.mem_map.mp hp
+      subst e
+      rcases mem_join chDot m c hcp with h | ⟨f, hf, hcf⟩
+      · subst h; decide
+      · exact hsp m (hX m hm) f hf c hcf
+  refine ⟨?_, by simp [join]⟩
+  intro c hc'
+  rcases mem_join chGt _ c hc' with h | ⟨p, hp, hcp⟩
+  · subst h; decide
+  · simp only [List.map_cons, List.map_nil, List.mem_cons, List.mem_nil_iff, or_false] at hp
+    rcases hp with h | h | h
+    · subst h; exact roleChars R (fun m hm => by simp [hm]) c hcp
+    · subst h; exact roleChars A (fun m hm => by simp [hm]) c hcp
+    · subst h; exact roleChars P (fun m hm => by simp [hm]) c hcp
+
+theorem noEmptyPiece_written (X : List (List Str)) (hX : WrittenOK X) :
+    hasEmptyPiece (join chDot (X.map (join chDot))) = false ∧ chGt ∉ join chDot (X.map (join chDot)) := by
+  have neX : ∀ m ∈ X, m ≠ [] := fun m hm => (hX m hm).1
+  rw [join_flatten chDot X neX]
+  have frs : ∀ f ∈ X.flatten, f ≠ [] ∧ chDot ∉ f ∧ chGt ∉ f := by
+    intro f hf
+    obtain ⟨m, hm, hfm⟩ := List.mem_flatten.mp hf
+    exact (hX m hm).2 f hfm
+  constructor
+  · unfold hasEmptyPiece
+    by_cases he : X.flatten = []
+    · rw [he]; rfl
+    · rw [splitOn_join chDot X.flatten he (fun f hf => (frs f hf).2.1)]
+      have : X.flatten.any (·.isEmpty) = false := by
+        rw [List.any_eq_false]
+        intro f hf
+        have := (frs f hf).1
+        simpa using this
+      rw [this, Bool.and_false]
+  · intro hmem
+    rcases mem_join chDot X.flatten chGt hmem with h | ⟨f, hf, hc⟩
+    · simp [chGt, chDot] at h
+    · exact (frs f hf).2.2 hc
+
+/-- on every text the writer can emit (any radical indices, any fragment groups) the strict reader (`ignore=False`)
+    does exactly what the default reader does -/
+theorem readRxnRadOpt_written (natoms : Str → Nat) (R A P : List (List Str)) (idx : List Nat) (gs : List (List Nat))
+    (hR : WrittenOK R) (hA : WrittenOK A) (hP : WrittenOK P)
+    (hsp : ∀ m ∈ R ++ A ++ P, ∀ f ∈ m, ∀ c ∈ f, isSpace c = false) :
+    readRxnRadOpt false natoms (render false ⟨[R.map (join chDot), A.map (join chDot), P.map (join chDot)], idx, gs⟩) =
+      readRxnRad natoms (render false ⟨[R.map (join chDot), A.map (join chDot), P.map (join chDot)], idx, gs⟩) := by
+  obtain ⟨hsig, hsne⟩ := sig_nospace R A P hsp
+  obtain ⟨eR, gR⟩ := noEmptyPiece_written R hR
+  obtain ⟨eA, gA⟩ := noEmptyPiece_written A hA
+  obtain ⟨eP, gP⟩ := noEmptyPiece_written P hP
+  have hsplit := splitOn_join chGt [join chDot (R.map (join chDot)), join chDot (A.map (join chDot)),
+    join chDot (P.map (join chDot))] (by simp) (by
+      intro p hp
+      simp only [List.mem_cons, List.mem_nil_iff, or_false] at hp
+      rcases hp with rfl | rfl | rfl <;> assumption)
+  unfold readRxnRadOpt
+  rw [splitWs_render _ idx gs hsig hsne]
+  by_cases hcx : (cxParts idx gs).isEmpty = true
+  · simp only [hcx, if_true, List.map_cons, List.map_nil, hsplit, eR, eA, eP, Bool.or_false, Bool.and_false,
+      Bool.false_eq_true, if_false]
+  · simp only [hcx, Bool.false_eq_true, if_false, List.map_cons, List.map_nil, hsplit, eR, eA, eP, Bool.or_false,
+      Bool.and_false]
+
+theorem readRxnRadOpt_format (natoms : Str → Nat) (keep : Bool) (R A P : List WMol)
+    (hR : WrittenOK (R.map Prod.fst)) (hA : WrittenOK (A.map Prod.fst)) (hP : WrittenOK (P.map Prod.fst))
+    (hsp : ∀ m ∈ R ++ A ++ P, ∀ f ∈ m.1, ∀ c ∈ f, isSpace c = false) :
+    readRxnRadOpt false natoms (formatRxn keep false (R.map sigOfW) (A.map sigOfW) (P.map sigOfW)) =
+      readRxnRad natoms (formatRxn keep false (R.map sigOfW) (A.map sigOfW) (P.map sigOfW)) := by
+  -- the sorted signature is the `!c` signature of permuted roles
+  have key : ∀ R A P : List WMol, WrittenOK (R.map Prod.fst) → WrittenOK (A.map Prod.fst) → WrittenOK (P.map Prod.fst) →
+      (∀ m ∈ R ++ A ++ P, ∀ f ∈ m.1, ∀ c ∈ f, isSpace c = false) →
+      readRxnRadOpt false natoms (formatRxn true false (R.map sigOfW) (A.map sigOfW) (P.map sigOfW)) =
+        readRxnRad natoms (formatRxn true false (R.map sigOfW) (A.map sigOfW) (P.map sigOfW)) := by
+    intro R A P hR hA hP hsp
+    have hsp1 : ∀ m ∈ R.map Prod.fst ++ A.map Prod.fst ++ P.map Prod.fst, ∀ f ∈ m, ∀ c ∈ f, isSpace c = false := by
+      intro m hm
+      rw [← List.map_append, ← List.map_append] at hm
+      obtain ⟨x, hx, rfl⟩ := List.mem_map.mp hm
+      exact hsp x hx
+    unfold formatRxn
+    rw [formatCoreW]
+    exact readRxnRadOpt_written natoms _ _ _ _ _ hR hA hP hsp1
+  cases keep with
+  | true => exact key R A P hR hA hP hsp
+  | false =>
+    obtain ⟨R', pR, eR⟩ := perm_map_inv sigOfW (sortRole false (R.map sigOfW)) R
+      (by unfold sortRole; simp only [Bool.false_eq_true, if_false]; exact List.mergeSort_perm _ _)
+    obtain ⟨A', pA, eA⟩ := perm_map_inv sigOfW (sortRole false (A.map sigOfW)) A
+      (by unfold sortRole; simp only [Bool.false_eq_true, if_false]; exact List.mergeSort_perm _ _)
+    obtain ⟨P', pP, eP⟩ := perm_map_inv sigOfW (sortRole false (P.map sigOfW)) P
+      (by unfold sortRole; simp only [Bool.false_eq_true, if_false]; exact List.mergeSort_perm _ _)
+    have hsort : formatRxn false false (R.map sigOfW) (A.map sigOfW) (P.map sigOfW) =
+        formatRxn true false (R'.map sigOfW) (A'.map sigOfW) (P'.map sigOfW) := by
+      rw [eR, eA, eP]; rfl
+    rw [hsort]
+    have wok : ∀ X X' : List WMol, X'.Perm X → WrittenOK (X.map Prod.fst) → WrittenOK (X'.map Prod.fst) := by
+      intro X X' p h m hm
+      obtain ⟨x, hx, rfl⟩ := List.mem_map.mp hm
+      exact h x.1 (List.mem_map.mpr ⟨x, p.subset hx, rfl⟩)
+    apply key R' A' P' (wok R R' pR hR) (wok A A' pA hA) (wok P P' pP hP)
+    intro m hm
+    apply hsp m
+    simp only [List.mem_append] at hm ⊢
+    rcases hm with (h | h) | h
+    · exact Or.inl (Or.inl (pR.subset h))
+    · exact Or.inl (Or.inr (pA.subset h))
+    · exact Or.inr (pP.subset h)
+
 end ChythonModel.Proofs.C15
